@@ -1143,7 +1143,8 @@ inline std::string url::origin() const {
         // "scheme://"
         std::string str_origin(norm_url_, 0, part_end_[SCHEME_SEP]);
         // "host:port"
-        str_origin.append(norm_url_.data() + part_end_[HOST_START], norm_url_.data() + part_end_[PORT]);
+        const string_view host_port = host();
+        str_origin.append(host_port.data(), host_port.length());
         return str_origin;
     }
     if (get_part_view(SCHEME) == string_view{ "blob", 4 }) {
